@@ -227,6 +227,8 @@ Definition a_access (sv : mval) (idxs : option (list (list Z))) : list tval :=
     match span_impl t m with
     | UB => [TZ UB]
     | Ok sp =>
+      if 4096 <? sp then [ TL (offs FPack); TL (offs FArray); TL (offs FSpan); TL (Ok []); TL (Ok []) ]   (* huge spans: identities only *)
+      else
       let hp0 := repeat (-1) (Z.to_nat (sp + 16)) in
       let hp := write_all t v pts 0 hp0 in
       [ TL (offs FPack); TL (offs FArray); TL (offs FSpan);
